@@ -78,6 +78,21 @@ Section C05.
         NoDup (map snd (vr_resps (ve_var e))) /\ vr_resps (ve_var e) <> [].
   Proof. exact (variants_sorted_from_empty hstate compute cache_on ims_on parse_ims sanitize_ok prime negotiate rules_of dbg). Qed.
 
+  (** (1') ... and every cache item is built with the rules of the path it is stored under — for a page served through an
+      internal route: the internal path, whichever of the two sites ([handle_cache]'s miss arm, [handle_vary_missing])
+      created the item —, and every stored list is what those rules make of the headers of a request cached under that path *)
+  Theorem items_built_with_rules_of_their_path : forall ops hs now,
+    exists l st' now',
+      runV hstate compute cache_on ims_on parse_ims sanitize_ok prime negotiate rules_of dbg ([], hs) now ops = Ok l /\
+      runV_state hstate compute cache_on ims_on parse_ims sanitize_ok prime negotiate rules_of dbg ([], hs) now ops = Ok (st', now') /\
+      forall k e, pc_find k (fst st') = Some e ->
+        vr_refs (ve_var e) = rules_of (kpath k) /\
+        forall f hc, In (f, hc) (vr_resps (ve_var e)) ->
+          map fst hc = map ru_name (rules_of (kpath k)) /\
+          exists q1 hs1 ok1, fst (fst (compute hs1 q1 ok1)) = f /\ cpath q1 = kpath k /\
+                             hc = headers_for_request (rules_of (kpath k)) (fst q1).
+  Proof. exact (entries_of_their_path hstate compute cache_on ims_on parse_ims sanitize_ok prime negotiate rules_of dbg). Qed.
+
   (** (2) the vector is a finite map *transformed header list -> response*: on a sorted vector
       [get_by_request] returns the stored response whose list equals the request's, or — when there is
       none — the insertion position that keeps the vector sorted *)
